@@ -12,6 +12,8 @@ from ..interp import (Interp, State, Num, BoolV, StructV, EnumV, TupleV, RefV, C
 from .common import *
 
 RC = 'synth_utils::ribbon_controller::RibbonController'
+RC_FIELDS = {'finger_press_high_boundary', 'error_const', 'current_val', 'finger_is_pressing', 'finger_just_pressed', 'finger_just_released',
+             'buff', 'num_to_ignore_up_front', 'num_to_discard_at_end', 'num_samples_received', 'num_samples_written'}
 RCF = 'synth_utils::ribbon_controller::RibbonController::<BUFFER_CAPACITY>::'
 HELPER = 'synth_utils::ribbon_controller::sample_rate_to_capacity'
 FS_MIN, FS_MAX = 100, 192000
@@ -99,7 +101,7 @@ def check_poll(res, facts, prop):
                                 res.ob('R-RIBBON', inst, False, 'analysis failed: %s' % e, where)
                                 continue
                             res.absorb(it)
-                            for o in outs:
+                            for o in sem_iter(outs):
                                 n += 1
                                 if o.status != 'returned':
                                     res.ob('R-RIBBON', inst, False, 'path ends with %s: %s' % (o.status, o.panic_info), where, key='R-RIBBON:%s:%s' % (inst, o.status))
@@ -187,9 +189,9 @@ def check_edges_and_value(res, facts, prop):
                 pre = copy.deepcopy(rc)
                 outs, cell = run_method(it, st, RCF + meth, rc, [], genv={'BUFFER_CAPACITY': N})
                 res.absorb(it)
-                for o in outs:
+                for o in sem_iter(outs):
                     post = o.cells[cell]
-                    ch = set(changed_fields(pre, post))
+                    ch = set(spec_fields_changed(pre, post, RC_FIELDS))
                     ok = o.status == 'returned' and bool_of(o.ctx, o.ret) == val and bool_of(o.ctx, post.get(latch)) is False and ch <= {latch}
                     res.ob('R-RIBBON', '%s|latch=%s' % (meth, val), ok, 'returned %r, latch after %r, changed %s' % (o.ret, post.get(latch), sorted(ch)), where_of(facts, RCF + meth))
         it = Interp(facts)
@@ -197,8 +199,8 @@ def check_edges_and_value(res, facts, prop):
         rc, N = rb.controller(it, st)
         pre = copy.deepcopy(rc)
         outs, cell = run_method(it, st, RCF + 'finger_is_pressing', rc, [], genv={'BUFFER_CAPACITY': N})
-        for o in outs:
-            res.ob('R-RIBBON', 'finger_is_pressing is a pure getter', o.status == 'returned' and same(o.ret, pre.get('finger_is_pressing')) and not changed_fields(pre, o.cells[cell]), 'returns %r' % (o.ret,), where_of(facts, RCF + 'finger_is_pressing'))
+        for o in sem_iter(outs):
+            res.ob('R-RIBBON', 'finger_is_pressing is a pure getter', o.status == 'returned' and same(o.ret, pre.get('finger_is_pressing')) and not spec_fields_changed(pre, o.cells[cell], RC_FIELDS), 'returns %r' % (o.ret,), where_of(facts, RCF + 'finger_is_pressing'))
         return
     # C16: value() = current_val / boundary, read-only
     it = Interp(facts)
@@ -208,8 +210,8 @@ def check_edges_and_value(res, facts, prop):
     outs, cell = run_method(it, st, RCF + 'value', rc, [], genv={'BUFFER_CAPACITY': N})
     res.absorb(it)
     cv, b = pre.get('current_val').term, pre.get('finger_press_high_boundary').term
-    for o in outs:
-        ok = o.status == 'returned' and isinstance(o.ret, Num) and o.ret.term == cv * inv_poly(b) and not changed_fields(pre, o.cells[cell])
+    for o in sem_iter(outs):
+        ok = o.status == 'returned' and isinstance(o.ret, Num) and o.ret.term == cv * inv_poly(b) and not spec_fields_changed(pre, o.cells[cell], RC_FIELDS)
         res.ob('R-AVG', 'value() = current_val / boundary (read-only)', ok, 'value() = %r' % (o.ret,), where_of(facts, RCF + 'value'))
     # E(a) = a - (a - a^2) e : 0 <= E(a) <= a, dE/da >= 0 for a in [0, b), e in [0,1]
     from ..terms import Ctx
@@ -228,7 +230,7 @@ def check_edges_and_value(res, facts, prop):
     pos = float_sym(st, 'pos', 0, 1)
     outs, cell = run_method(it, st, RCF + 'error_estimate', rc, [pos], genv={'BUFFER_CAPACITY': N})
     res.absorb(it)
-    for o in outs:
+    for o in sem_iter(outs):
         exp = (pos.term - pos.term * pos.term) * rc.get('error_const').term
         res.ob('R-AVG', 'error_estimate(p) = (p - p^2) * error_const', o.status == 'returned' and isinstance(o.ret, Num) and o.ret.term == exp, 'error_estimate = %r' % (o.ret,), where_of(facts, RCF + 'error_estimate'))
 
@@ -246,7 +248,7 @@ def check_sizing(res, facts, prop):
     outs = it.run(it.start(HELPER, [sr], state=st))
     res.absorb(it)
     helper_terms = []
-    for o in outs:
+    for o in sem_iter(outs):
         if o.status == 'returned' and isinstance(o.ret, Num):
             helper_terms.append(o.ret.term)
     exp_disc = t_idiv(sr.term.scale(RISE), Poly.const(10 ** 6), st.ctx)
@@ -262,7 +264,7 @@ def check_sizing(res, facts, prop):
     outs = it.run(it.start(RCF + 'new', args, genv={'BUFFER_CAPACITY': N}, state=st))
     res.absorb(it)
     sru = t_f2i(srf.term, 0, 2 ** 32 - 1, st.ctx)
-    for o in outs:
+    for o in sem_iter(outs):
         if o.status != 'returned' or not isinstance(o.ret, StructV):
             res.ob('R-AVG', 'new()', False, 'new ends with %s: %s' % (o.status, o.panic_info), where_of(facts, RCF + 'new'))
             continue
